@@ -435,13 +435,14 @@ def run_xsitype(spec, res):
 
 RECURSIVE_XSD = f'''<xs:schema xmlns:xs="{XS}">
 <xs:element name="node"><xs:complexType><xs:sequence>
- <xs:element name="item" minOccurs="0" maxOccurs="unbounded"><xs:complexType><xs:attribute name="k" type="xs:int"/></xs:complexType></xs:element>
+ <xs:element name="item" minOccurs="0" maxOccurs="unbounded"><xs:complexType><xs:attribute name="k" type="xs:int"/><xs:attribute name="d" type="xs:int"/></xs:complexType></xs:element>
  <xs:element name="ref" minOccurs="0" maxOccurs="unbounded"><xs:complexType><xs:attribute name="to" type="xs:int"/></xs:complexType></xs:element>
  <xs:element ref="node" minOccurs="0" maxOccurs="unbounded"/>
  <xs:element name="tail" minOccurs="0" maxOccurs="unbounded"><xs:complexType><xs:attribute name="k" type="xs:int"/></xs:complexType></xs:element>
 </xs:sequence></xs:complexType>
 <xs:key name="ku"><xs:selector xpath="item|tail"/><xs:field xpath="@k"/></xs:key>
 <xs:keyref name="kr" refer="ku"><xs:selector xpath="ref"/><xs:field xpath="@to"/></xs:keyref>
+<xs:unique name="ud"><xs:selector xpath=".//item"/><xs:field xpath="@d"/></xs:unique>
 </xs:element></xs:schema>'''
 
 
@@ -460,6 +461,9 @@ def run_recursive(spec, res):
             def node(depth):
                 keys = []
                 items = [rng.randint(1, 4) for _ in range(rng.randint(0, 3))]
+                # @d (values 50..56, apart from the key values): unique among *all* the items below a node, so an item
+                # belongs to the scope of every enclosing node
+                dvals = [rng.choice((None, None, 50, 51, 52, 53, 54, 55, 56)) for _ in items]
                 refs = [rng.randint(1, 5) for _ in range(rng.choice((0, 0, 1, 2)))]
                 kids = [node(depth + 1) for _ in range(rng.choice((0, 1, 1, 2)) if depth < 3 else 0)]
                 tails = [rng.randint(1, 4) for _ in range(rng.choice((0, 0, 1, 2)))]
@@ -470,9 +474,15 @@ def run_recursive(spec, res):
                 for r in refs:
                     if r not in keys:
                         want.append(f'value ({r},) not found')
-                return ('<node>' + ''.join(f'<item k="{k}"/>' for k in items) + ''.join(f'<ref to="{r}"/>' for r in refs) +
-                        ''.join(kids) + ''.join(f'<tail k="{k}"/>' for k in tails) + '</node>')
-            doc = node(0)
+                below = [d for d in dvals if d is not None] + [d for kid in kids for d in kid[1]]
+                for i, d in enumerate(below):
+                    if below[:i].count(d) == 1:
+                        want.append(f'duplicated value ({d},)')
+                text = ('<node>' + ''.join(f'<item k="{k}"' + (f' d="{d}"' if d is not None else '') + '/>' for k, d in zip(items, dvals)) +
+                        ''.join(f'<ref to="{r}"/>' for r in refs) + ''.join(kid[0] for kid in kids) +
+                        ''.join(f'<tail k="{k}"/>' for k in tails) + '</node>')
+                return text, below
+            doc = node(0)[0]
             got = []
             for e in schema.iter_errors(doc):
                 r = e.reason or ''
